@@ -72,6 +72,25 @@ def strings_for_cell(cell, tier, seed, prefixes=(b'',), modrms=None, sibs=None, 
                     yield b, (cell, p.hex(), modrm >> 6, modrm & 7, sib, fcls)
 
 
+def count_grid(tier):
+    """Shift / rotate / double-shift / bit-test forms with an immediate count: every one of the 256 immediate values (counts are
+    masked, reduced modulo the operand size, and special-cased at 0, 1 and multiples of the size), register and memory forms,
+    without prefix and under 66."""
+    for p in (b'', b'\x66'):
+        for opc, regs in ((b'\xc0', range(8)), (b'\xc1', range(8)), (b'\x0f\xa4', (3,)), (b'\x0f\xac', (3,)), (b'\x0f\xba', (4, 5, 6, 7)),
+                          (b'\x0f\x71', (2, 4, 6)), (b'\x0f\x72', (2, 4, 6)), (b'\x0f\x73', (2, 3, 6, 7)), (b'\x6b', (1,)), (b'\xd4', (None,)), (b'\xd5', (None,))):
+            for reg in regs:
+                for modrm in ((0xc0, 0x00) if reg is not None else (None,)):
+                    for imm in range(256):
+                        if reg is None:
+                            b = p + opc + bytes([imm])
+                            yield b + b'\x90' * 4, ((9, opc[-1]), p.hex(), 3, 0, None, 'count%02x' % imm)
+                        else:
+                            m = modrm | (reg << 3) | 1
+                            b = p + opc + bytes([m, imm])
+                            yield b + b'\x90' * 4, ((9, opc[-1]), p.hex(), m >> 6, m & 7, None, 'count%02x' % imm)
+
+
 SEG_PREFIXES = [b'\x26', b'\x2e', b'\x36', b'\x3e', b'\x64', b'\x65']
 STD_PREFIXES = [b'', b'\x66']
 ALL_SINGLE = [b'', b'\x66', b'\x67', b'\xf2', b'\xf3', b'\xf0'] + SEG_PREFIXES
